@@ -437,10 +437,25 @@ def case_expr(ip, sw, values):
 
 
 # ------------------------------------------------------------------------------------ naming
+def _unique(ip, name, parent, who):
+    """Two different local objects bound to the same variable name (a helper called twice, a loop body)
+    must not be confused: the second one gets a '#k' suffix."""
+    if parent is not None:
+        return name
+    used = ip.__dict__.setdefault('names_used', {})
+    k = 1
+    cand = name
+    while cand in used and used[cand] is not who:
+        k += 1
+        cand = '%s#%d' % (name, k)
+    used[cand] = who
+    return cand
+
+
 def name_value(ip, v, name, parent):
     if isinstance(v, Obj):
         if not v.named:
-            v.leaf, v.parent, v.named = name, parent, True
+            v.leaf, v.parent, v.named = _unique(ip, name, parent, v), parent, True
             il = getattr(v, 'items_list', None)
             if il is not None:
                 for i, x in enumerate(il):
@@ -448,7 +463,8 @@ def name_value(ip, v, name, parent):
     elif isinstance(v, E) and v.op == 'sig':
         si = v.args[0]
         if si.kind == 'signal' and not getattr(si, '_named', False):
-            si.leaf, si.parent = name, parent
+            dn = getattr(si, 'decl_name', None)
+            si.leaf, si.parent = _unique(ip, dn if (dn and parent is None) else name, parent, si), parent
             si._named = True
     elif isinstance(v, (list, tuple)):
         for i, x in enumerate(v):
